@@ -34,14 +34,16 @@ CHECKS["C01"] = dict(
           "width and list length) the request body equals the one a reference translator written from the XSD/WSDL "
           "rules prescribes — wrapper, children in schema order with inherited members first, form qualification, "
           "attributes on their owner, xsi:type for derived types, xsi:nil/default, optional values omitted — for "
-          "document/literal wrapped, bare and rpc/literal. The model is run against the implementation on ~700 "
-          "generated (WSDL, operation, arguments) cases per quick run (14k thorough); requests are read back with "
-          "expat as an independent XML processor."),
+          "document/literal wrapped, bare, rpc/literal and rpc/encoded (SOAP section 5: arrays with arrayType = member "
+          "type[length] for every length incl. 0, every element typed), and for the whole request with WSDL-declared "
+          "typed headers (request_conforms, request_body_independent_of_headers); members of an absent optional "
+          "container are omitted at any depth. ~1.5k generated (WSDL, operation, arguments) cases per quick run are "
+          "compared inside Coq; requests are read back with expat as an independent XML processor."),
     design="DESIGN.md §5 C01",
     technique="Coq proof (nested induction on values) over a Gallina marshaller model + in-Coq differential "
               "correspondence on generated WSDL families",
     note="Modelled at the namespace-infoset level; prefix assignment/serialisation is C05, argument binding C08, "
-         "leaf lexical forms C06. rpc/encoded arrays: see evidence (extension in progress).",
+         "leaf lexical forms C06. rpc/encoded: arrays of arrays and None as an array member are outside the guard.",
 )
 
 CHECKS["C09"] = dict(
@@ -130,8 +132,9 @@ CHECKS["C18"] = dict(
           "inside Coq."),
     design="DESIGN.md §5 C18",
     technique="Coq proof (induction on reference depth over a heap model) + in-Coq differential correspondence",
-    note="heap_ok of the processed heap is a boolean hypothesis of multiref_equiv (evaluated on every generated case, "
-         "not derived from an input-side condition); prefix handling (promotePrefixes, prefixes resolved through the "
+    note="multiref_equiv / outline_invariant assume only an input-side boolean condition on the parsed reply "
+         "(input_ok_heap_ok derives the processed heap's well-formedness); a constructive out-liner is proved "
+         "(outline_constructive); prefix handling of moved content is modelled separately (Prefix.v); prefix handling (promotePrefixes, prefixes resolved through the "
          "referrer) is covered by correspondence only; builtin translation is C06's.",
 )
 
@@ -172,10 +175,12 @@ CHECKS["C07"] = dict(
     design="DESIGN.md §5 C07",
     technique="Coq proof (graph algorithm with fuel sufficiency; rewriting invariance of a schema denotation) + "
               "rendering-equivalence correspondence",
-    note="The in-place merge order of Schema.dereference is not modelled statement by statement: the denotational "
-         "schema model is compared with suds' own schema objects on every rendering (schema_agrees) and "
-         "model = denotation is evaluated per rendering, not proved in general. WSDL linking/children order and "
-         "set_wrapped are covered by correspondence only.",
+    note="Also proved: the concrete-schema model equals the denotation for every schema inside explicit boolean guards "
+         "(model_is_denotation), Schema.dereference as in-place merges over an object store in dependency_sort order "
+         "equals resolution (deref_sorted_is_resolution; a wrong order is refuted), Schema.merge keeps the symbol "
+         "spaces apart, WSDL linking is independent of the order of top-level children and the wrapped rule. "
+         "Anonymous types are abstracted in the concrete model (correspondence only); the guards expandable / "
+         "view_defined are stated as 'the fuelled expansion succeeds'.",
 )
 
 CHECKS["C15"] = dict(
@@ -240,8 +245,9 @@ CHECKS["C12"] = dict(
     technique="Coq proof (termination by potential function, invariants over the loader's request log, relational "
               "lemma for two openers) + in-Coq differential correspondence with fault injection",
     note="urljoin is modelled for hierarchical http(s) URLs only; declarations, resolve, set_wrapped, add_methods and "
-         "the fingerprint equality with the single-document client (partition_equivalent) are covered by "
-         "correspondence only; the schema-level reachable-only statement is executed per case, not proved.",
+         "the fingerprint of the client are covered by correspondence; partition_equivalent (declaration tables of any "
+         "partition equal the single document's, as key sets, under explicit guards incl. no chameleon include) and "
+         "the guarded schema-level reachable-only statement are proved on the model.",
 )
 
 CHECKS["C02"] = dict(
@@ -261,8 +267,8 @@ CHECKS["C02"] = dict(
     design="DESIGN.md §5 C02",
     technique="Coq proof (induction on the document) over a Gallina model of the unmarshaller + in-Coq differential "
               "correspondence under random presentations",
-    note="Covers document/literal wrapped replies; rpc and bare bindings, simpleContent types and multiref (C18) are "
-         "not modelled here. Lexical-to-Python translation beyond the type tag is C06's; expat's tokenisation and "
+    note="Covers document/literal wrapped and bare and rpc/literal replies and simpleContent types; rpc/encoded replies "
+         "and multiref are C18's. Lexical-to-Python translation beyond the type tag is C06's; expat's tokenisation and "
          "entity decoding is the model's input (trusted).",
 )
 
